@@ -190,7 +190,11 @@ def _build(specs, plain=False):
 
 
 def _obs(stream):
-    return [stream.seed(), stream.next_float().hex(), stream.next_float().hex(), stream.next_float().hex()]
+    sd = stream.seed()
+    # saving and restoring the state right after the update is a no-op (a model may snapshot its streams at the start
+    # of a replication): the draws are still those of the seed
+    stream.restore_state(stream.save_state())
+    return [sd, stream.next_float().hex(), stream.next_float().hex(), stream.next_float().hex()]
 
 
 def _obs_all(d):
